@@ -3,7 +3,7 @@
 # property it was made for.  The check must report a VIOLATION again (a fixed entry suppresses nothing).
 set -u
 cd /verif
-declare -A PROP=( [6bc35f5]=C12 [37221c6]=C13 [13822e6]=C08 [973328c]="C05 C17" [20744aa]=C14 [281b790]=C02 [f93d170]=C04 [51c6827]=C12 [83a85ce]=C15 [c2f73c9]=C14 )
+declare -A PROP=( [6bc35f5]=C12 [37221c6]=C13 [13822e6]=C08 [973328c]="C05 C17" [20744aa]=C14 [281b790]=C02 [f93d170]=C04 [51c6827]=C12 [83a85ce]=C15 [c2f73c9]=C14 [ec539c0]=C06 [22366e4]=C09 [246a451]=C16 [395ba48]=C10 )
 fail=0
 for h in $(git -C /repo log --format=%h --grep '^fix:' | tac); do
   T=$(mktemp -d /tmp/fixreg.XXXXXX)
